@@ -427,14 +427,20 @@ class Tensor:
     # ******* Basic ops *******
     # *************************
     
+    def _scalar_operand(self, value) -> 'Tensor':
+        # python scalars take the dtype of the tensor they meet (not float32 rounding for float64 tensors)
+        if self.is_floating_point and isinstance(value, (int, float)) and not isinstance(value, bool):
+            return Tensor(np.array(value, dtype=self.dtype), device=self.device)
+        return Tensor(value, device=self.device)
+    
     def __add__(self, summand:'Tensor') -> 'Tensor':
-        summand = summand if isinstance(summand, Tensor) else Tensor(summand, device=self.device)
+        summand = summand if isinstance(summand, Tensor) else self._scalar_operand(summand)
         from . import functional as F
         return  F.add(self, summand)
         
         
     def __mul__(self, factor:'Tensor') -> 'Tensor':
-        factor = factor if isinstance(factor, Tensor) else Tensor(factor, device=self.device)
+        factor = factor if isinstance(factor, Tensor) else self._scalar_operand(factor)
         from . import functional as F
         return F.mul(self, factor)
     
